@@ -675,6 +675,27 @@ func (e *Enc) evalCall(env *Env, n *ast.CallExpr) TV {
 			c.names[k] = v
 		}
 		return e.eval(c, n.Args[0])
+	case "pointsTo":
+		// pointsTo(p, x.f): the pointer value p is the address of the field
+		// (or embedded struct) x.f
+		pv := e.eval(env, n.Args[0])
+		pp, ok1 := pv.V.(Ptr)
+		ap, ok2 := e.evalAddr(env, n.Args[1]).(Ptr)
+		if !ok1 || !ok2 {
+			e.evalFail(env, "pointsTo expects a pointer and a field expression")
+		}
+		same := pp.K == ap.K && len(pp.Path) == len(ap.Path)
+		if same {
+			for i := range pp.Path {
+				if pp.Path[i] != ap.Path[i] {
+					same = false
+				}
+			}
+		}
+		if !same || pp.K != pHeap {
+			return TV{V: Sc{tFalse}, Ty: boolT}
+		}
+		return TV{V: Sc{eq(pp.Ref, ap.Ref)}, Ty: boolT}
 	case "atHead":
 		// atHead(x): x as it was at the head of the iteration that just ended
 		// (loop step clauses only)
